@@ -393,6 +393,145 @@ theorem deposits_fully_backed (ops : List Op) (s : State) (h : DInv s) (ok : ∀
     obtain ⟨q1, q2⟩ := step_dinv s op h (ok op (List.mem_cons_self ..))
     exact ih _ q1 (fun o ho => by rw [q2]; exact ok o (List.mem_cons_of_mem _ ho))
 
+
+/-! ### the activity flag and the active-tunnel index agree, over every history -/
+
+/-- a tunnel id is in the active index (what the end-blocker iterates) exactly when the tunnel exists and is flagged active -/
+def FlagIdx (s : State) : Prop := ∀ tid, tid ∈ s.activeIdx ↔ ∃ t, s.tunnels tid = some t ∧ t.isActive = true
+
+theorem mem_insertSorted (l : List Nat) (x y : Nat) : y ∈ insertSorted l x ↔ y ∈ l ∨ y = x := by
+  unfold insertSorted
+  split
+  · rename_i h
+    constructor
+    · exact Or.inl
+    · rintro (h' | rfl)
+      · exact h'
+      · exact h
+  · rw [(List.mergeSort_perm _ _).mem_iff]; simp
+
+theorem flagIdx_setTotal (s : State) (tid : Nat) (t : Tunnel) (ht : s.tunnels tid = some t) (td : Coins) (s' : State)
+    (h1 : s'.activeIdx = s.activeIdx) (h2 : ∀ i, s'.tunnels i = if i = tid then some { t with totalDeposit := td } else s.tunnels i)
+    (h : FlagIdx s) : FlagIdx s' := by
+  intro i
+  rw [h1, h i, h2 i]
+  by_cases e : i = tid
+  · subst e
+    simp only [if_true, ht, Option.some.injEq]
+    constructor
+    · rintro ⟨t0, rfl, ha⟩; exact ⟨_, rfl, ha⟩
+    · rintro ⟨t0, rfl, ha⟩; exact ⟨_, rfl, ha⟩
+  · simp only [e, if_false]
+
+theorem flagIdx_deactivate (s : State) (tid : Nat) (h : FlagIdx s) : FlagIdx (deactivateTunnel s tid) := by
+  obtain ⟨_, _, _, _, _, _, _, _, f9, f10⟩ := deactivateTunnel_frame s tid
+  intro i
+  rw [f9, f10 i]
+  cases ht : s.tunnels tid with
+  | none =>
+    simp only [Option.isSome_none, Bool.false_eq_true, if_false, Option.map_none]
+    rw [h i]
+    by_cases e : i = tid
+    · subst e; simp [ht]
+    · simp [e]
+  | some t =>
+    simp only [Option.isSome_some, if_true, Option.map_some, List.mem_filter, decide_eq_true_eq]
+    by_cases e : i = tid
+    · subst e; simp
+    · simp only [e, if_false]
+      constructor
+      · rintro ⟨hm, _⟩; exact (h i).mp hm
+      · intro hx; exact ⟨(h i).mpr hx, e⟩
+
+theorem flagIdx_deposit (s : State) (t a : Nat) (m : Coins) (h : FlagIdx s) : FlagIdx (depositOp s t a m).1 := by
+  unfold depositOp
+  cases hts : s.tunnels t with
+  | none => exact h
+  | some tt =>
+    simp only []
+    split
+    · exact h
+    · split
+      · exact h
+      · exact flagIdx_setTotal s t tt hts (addC tt.totalDeposit m) _ rfl (fun i => by simp [setTunnel]) h
+
+theorem step_flagIdx (s : State) (op : Op) (h : FlagIdx s) (hb : ∀ i, s.count < i → s.tunnels i = none) :
+    FlagIdx (apply s op) := by
+  cases op with
+  | deposit t a m => exact flagIdx_deposit s t a m h
+  | withdraw t a m =>
+    by_cases hok : (withdrawOp s t a m).2 = Err.ok
+    · obtain ⟨tt, dd, ht, hd, _, hst⟩ := withdraw_ok s t a m hok
+      simp only [apply]; rw [hst]
+      have hw : FlagIdx (withdrawn s t a m tt dd) :=
+        flagIdx_setTotal s t tt ht (subC tt.totalDeposit m) _ rfl (fun i => by simp [withdrawn, setTunnel]) h
+      split
+      · exact flagIdx_deactivate _ t hw
+      · exact hw
+    · simp only [apply]; rw [withdraw_err_state s t a m hok]; exact h
+  | deactivate t x =>
+    simp only [apply, deactivateOp]
+    cases ht : s.tunnels t with
+    | none => exact h
+    | some tt =>
+      simp only []
+      split
+      · exact h
+      · split
+        · exact h
+        · exact flagIdx_deactivate s t h
+  | activate t x =>
+    simp only [apply, activateOp]
+    cases ht : s.tunnels t with
+    | none => exact h
+    | some tt =>
+      simp only []
+      split
+      · exact h
+      · split
+        · exact h
+        · unfold activateTunnel
+          simp only [ht]
+          split
+          · exact h
+          · intro i
+            simp only [mem_insertSorted, setTunnel]
+            by_cases e : i = t
+            · subst e; simp
+            · simp only [e, or_false, if_false]; exact h i
+  | create c init =>
+    simp only [apply, createOp]
+    have hnew : s.tunnels (s.count + 1) = none := hb _ (Nat.lt_succ_self _)
+    have h1 : FlagIdx { (setTunnel s (s.count + 1) { creator := c, isActive := false, totalDeposit := fun _ => 0 }) with count := s.count + 1 } := by
+      intro i
+      simp only [setTunnel]
+      by_cases e : i = s.count + 1
+      · subst e
+        simp only [if_true, Option.some.injEq]
+        constructor
+        · intro hm
+          obtain ⟨t0, q, _⟩ := (h _).mp hm
+          rw [hnew] at q; cases q
+        · rintro ⟨t0, rfl, ha⟩; cases ha
+      · simp only [e, if_false]; exact h i
+    split
+    · exact h1
+    · have hdep := flagIdx_deposit _ (s.count + 1) c init h1
+      cases hd : depositOp { (setTunnel s (s.count + 1) { creator := c, isActive := false, totalDeposit := fun _ => 0 }) with count := s.count + 1 } (s.count + 1) c init with
+      | mk s2 e =>
+        rw [hd] at hdep
+        cases e <;> first | exact hdep | exact h
+
+/-- PROPERTY (flag ⇔ index, over EVERY history): the end-blocker's active-tunnel index contains exactly the tunnels flagged
+    active — no inactive tunnel is processed and no active tunnel is skipped -/
+theorem active_flag_iff_index (ops : List Op) (s : State) (h : DInv s) (hf : FlagIdx s) (ok : ∀ op ∈ ops, OpOk s.accts op) :
+    FlagIdx (ops.foldl apply s) := by
+  induction ops generalizing s with
+  | nil => exact hf
+  | cons op rest ih =>
+    obtain ⟨q1, q2⟩ := step_dinv s op h (ok op (List.mem_cons_self ..))
+    exact ih _ q1 (step_flagIdx s op hf (fun i hi => (h.beyond i hi).1)) (fun o ho => by rw [q2]; exact ok o (List.mem_cons_of_mem _ ho))
+
 /-! non-vacuity -/
 def demo : State :=
   { tunnels := fun i => if i = 1 then some ⟨0, true, fun d => if d = "uband" then 120 else 0⟩ else none,
@@ -412,6 +551,9 @@ example : DInv demo := by
   · intro i hi
     have : i ≠ 1 := by simp [demo] at hi; omega
     simp [demo, this]
+example : FlagIdx demo := by
+  intro tid
+  by_cases h : tid = 1 <;> simp [demo, h]
 example : (withdrawOp demo 1 1 (fun d => if d = "uband" then 21 else 0)).2 = Err.ok := by decide
 example : ((withdrawOp demo 1 1 (fun d => if d = "uband" then 21 else 0)).1.activeIdx) = [] := by decide
 example : (withdrawOp demo 1 1 (fun d => if d = "uband" then 51 else 0)).2 = Err.insufficientDeposit := by decide
